@@ -183,37 +183,70 @@ Theorem C11_xoprob_check_sound : forall k gap gapf xo, xo_pt k gap gapf xo = tru
 Proof. exact xo_pt_sound. Qed.
 Print Assumptions C11_xoprob_check_sound.
 
-(** * interp_gmap: the new map's group metadata is copied from the source map — wrong unless the query is the source's
-      own marker list (finding C11-interp-gmap-stale-groups) *)
-Theorem C11_interp_gmap_meta_refuted : exists input query, distinct_pos input /\
-  let '(q, g, m) := interp_gmap input query in m <> group_meta (map fst q).
-Proof. exact interp_gmap_meta_refuted. Qed.
-Print Assumptions C11_interp_gmap_meta_refuted.
+(** * interp_gmap: the new map holds the query markers in query order with the interpolated positions and carries no
+      grouping of the source map ([None]: not grouped); the grouping it computes for itself on first use describes its own
+      markers — one entry per group, (name, length) run-length-decodes to its own sorted label array, names strictly
+      increasing.  (Finding C11-interp-gmap-stale-groups, repaired: full strength, for every query.) *)
+Theorem C11_interp_gmap_meta : forall input query,
+  let '(q, g, m) := interp_gmap input query in
+  q = query /\ g = interp_genpos (gm_rows input) query /\ m = None /\
+  Permutation (igmap_markers q) q /\ Sorted pair_le (igmap_markers q) /\
+  let '(names, st, sp, ln) := igmap_group q in
+  length st = length names /\ length sp = length names /\ length ln = length names /\
+  decode_runs (combine names ln) = map fst (igmap_markers q) /\ Sorted Z.lt names.
+Proof. exact interp_gmap_meta. Qed.
+Print Assumptions C11_interp_gmap_meta.
 
-Theorem C11_interp_gmap_meta_partial : forall input,
-  let '(q, g, m) := interp_gmap input (own_pairs (gm_rows input)) in m = group_meta (map fst q).
-Proof. exact interp_gmap_meta_partial. Qed.
-Print Assumptions C11_interp_gmap_meta_partial.
+(** regression witness about the FORMER code ([old_interp_gmap] copied the source map's metadata): the copied grouping did
+    not describe the new map's markers *)
+Theorem C11_old_interp_gmap_meta_refuted : exists input query, distinct_pos input /\
+  let '(q, g, m) := old_interp_gmap input query in m <> Some (group_meta (map fst q)) /\ m <> None.
+Proof. exact old_interp_gmap_meta_refuted. Qed.
+Print Assumptions C11_old_interp_gmap_meta_refuted.
 
-(** * remove_discrepancies keeps the old spline (finding C11-stale-spline-after-remove-discrepancies): the reduced map can be
-      well-formed and congruent while the object still interpolates through the removed markers *)
-Theorem C11_stale_spline_refuted : exists rows c x i,
+(** * remove_discrepancies / select / remove rebuild the spline from the remaining markers (finding
+      C11-stale-spline-after-remove-discrepancies, repaired: full strength, for every well-formed map that keeps two markers
+      per chromosome): the reduced map is well-formed, interpolation right after the reduction is exact at the remaining
+      markers, lies on the chord between consecutive remaining markers, preserves order once the reduced map is congruent,
+      and reports chromosomes absent from the reduced map as missing *)
+Theorem C11_interp_after_remove_discrepancies : forall rows, wf_map rows -> two_markers (rd_rows rows) ->
+  wf_map (rd_rows rows) /\
+  Forall2 ext_equiv (rd_interp_genpos rows (own_pairs (rd_rows rows))) (fin_gens (rd_rows rows)) /\
+  (forall c i x, has_chr (rd_rows rows) c = true ->
+     let k := knots (rd_rows rows) c in (S i < length k)%nat -> (fst (nth i k (0%Z, 0%Q)) <= x <= fst (nth (S i) k (0%Z, 0%Q)))%Z ->
+     exists g, rd_interp_pos rows (c, x) = Fin g /\
+       (g == chord x (fst (nth i k (0%Z, 0%Q))) (snd (nth i k (0%Z, 0%Q))) (fst (nth (S i) k (0%Z, 0%Q))) (snd (nth (S i) k (0%Z, 0%Q))))%Q) /\
+  (forall c x x', is_congruent (rd_rows rows) = true -> has_chr (rd_rows rows) c = true -> (x <= x')%Z ->
+     exists g g', rd_interp_pos rows (c, x) = Fin g /\ rd_interp_pos rows (c, x') = Fin g' /\ (g <= g')%Q) /\
+  (forall c x, has_chr (rd_rows rows) c = false -> rd_interp_pos rows (c, x) = NaN).
+Proof. exact rd_interp_laws. Qed.
+Print Assumptions C11_interp_after_remove_discrepancies.
+
+(** any selection of markers (select(mask); remove(indices) is the complementary mask) of a map without duplicated positions
+    is again a well-formed map when two markers stay on every chromosome; nothing is removed from a congruent map *)
+Theorem C11_select_keeps_map_well_formed : forall rows mask, distinct_pos rows -> two_markers (select_rows rows mask) ->
+  wf_map (select_rows rows mask).
+Proof. exact select_rows_wf. Qed.
+Print Assumptions C11_select_keeps_map_well_formed.
+
+Theorem C11_remove_discrepancies_congruent_noop : forall rows, is_congruent rows = true -> rd_rows rows = rows.
+Proof. exact rd_rows_congruent. Qed.
+Print Assumptions C11_remove_discrepancies_congruent_noop.
+
+(** regression witness about the FORMER code ([old_rd_interp_pos] = the spline of the unreduced rows was kept): the reduced
+    map was well-formed and congruent while the object still interpolated through the removed markers *)
+Theorem C11_old_stale_spline_refuted : exists rows c x i,
   wf_map (rd_rows rows) /\ is_congruent (rd_rows rows) = true /\
   let k := knots (rd_rows rows) c in
   (S i < length k)%nat /\ (fst (nth i k (0%Z, 0%Q)) <= x <= fst (nth (S i) k (0%Z, 0%Q)))%Z /\
-  exists g, interp_pos rows (c, x) = Fin g /\
+  exists g, old_rd_interp_pos rows (c, x) = Fin g /\
     ~ (g == chord x (fst (nth i k (0%Z, 0%Q))) (snd (nth i k (0%Z, 0%Q))) (fst (nth (S i) k (0%Z, 0%Q))) (snd (nth (S i) k (0%Z, 0%Q))))%Q.
-Proof. exact stale_spline_refuted. Qed.
-Print Assumptions C11_stale_spline_refuted.
-
-(** nothing is removed from a congruent map, so its spline stays valid; after build_spline() on the reduced rows
-    [C11_interp_linear_between] applies to [rd_rows rows] *)
-Theorem C11_stale_spline_partial : forall rows, is_congruent rows = true -> rd_rows rows = rows.
-Proof. exact stale_spline_partial. Qed.
-Print Assumptions C11_stale_spline_partial.
+Proof. exact old_stale_spline_refuted. Qed.
+Print Assumptions C11_old_stale_spline_refuted.
 
 (** non-vacuity: a concrete two-chromosome, six-marker map (supplied out of order) is well-formed and congruent *)
 Example C11_hyps_satisfiable : (wf_map (gm_rows wit_rows) /\ is_congruent (gm_rows wit_rows) = true /\ distinct_pos wit_rows
   /\ has_chr (gm_rows wit_rows) 1 = true /\ incr (map fst (knots (gm_rows wit_rows) 1)))
-  /\ Forall (fun p : Z * PrimFloat.float => finite64 (snd p)) [(5%Z, 0%float); (9%Z, 0.25%float); (20%Z, 0.5%float)].
-Proof. split; [exact hyps_satisfiable | repeat constructor; reflexivity]. Qed.
+  /\ Forall (fun p : Z * PrimFloat.float => finite64 (snd p)) [(5%Z, 0%float); (9%Z, 0.25%float); (20%Z, 0.5%float)]
+  /\ (wf_map wit_rd /\ two_markers (rd_rows wit_rd) /\ is_congruent wit_rd = false /\ is_congruent (rd_rows wit_rd) = true).
+Proof. split; [exact hyps_satisfiable | split; [repeat constructor; reflexivity | exact wit_rd_wf]]. Qed.
